@@ -4,7 +4,7 @@ tier=$1; shift
 cd "$(dirname "$0")/.."
 ./check --build || exit 2
 for s in "$@"; do
-  for id in $(./dsim/target/release/dsim list); do
+  for id in $(./dsim/target/release/dsim list) C19; do
     VERIF_SEED=$s ./check $id $tier 2>&1 | grep -E "VIOLATION|HARNESS|KNOWN-FINDING|^C[0-9]+ |^\s+\[" | cut -c1-400 | sed "s/^/[seed $s] /"
   done
 done
